@@ -86,8 +86,12 @@ func (t *TimerBasedElectionTrigger) Stop() {
 }
 
 func (t *TimerBasedElectionTrigger) CalcTimeout(view primitives.View) time.Duration {
-	timeoutMultiplier := time.Duration(int64(math.Pow(TIMEOUT_EXP_BASE, float64(view))))
-	return timeoutMultiplier * t.minTimeout
+	// minTimeout * TIMEOUT_EXP_BASE^view, saturating at the largest Duration instead of wrapping around
+	multiplier := math.Pow(TIMEOUT_EXP_BASE, float64(view))
+	if multiplier >= math.MaxInt64 || (t.minTimeout > 0 && int64(multiplier) > math.MaxInt64/int64(t.minTimeout)) {
+		return time.Duration(math.MaxInt64)
+	}
+	return time.Duration(int64(multiplier)) * t.minTimeout
 }
 
 func triggerElections(electionChannel chan *interfaces.ElectionTrigger, height primitives.BlockHeight, view primitives.View, triggerCancelled chan struct{}, electionsFunc func()) {
